@@ -36,24 +36,111 @@ func init() {
 			if c17ChildEnv != nil {
 				c17ChildEnv.Close()
 			}
+			for _, d := range c17Abandoned {
+				_ = os.RemoveAll(d)
+			}
 		}()
 		return serveBatch(args, c17RunCase)
 	})
 }
 
-// c17RunCase is the child side: one case against the child's served repository.
+// c17RunCase is the child side: one case against the child's served repository, under the no-progress watchdog.
 func c17RunCase(c c17Case) c17Result {
+	res, hang := c17RunGuarded(c)
+	if hang == nil {
+		return res
+	}
+	res = c17HangResult(c, hang)
+	if hang.Deadlock != "" && hang.Culprit == "" {
+		// the request that never returned is the victim; look for the request that left the cache in that state
+		c17Isolate(c, hang, &res)
+	}
+	return res
+}
+
+// c17RunGuarded runs one case on the child's environment (building one if there is none).
+func c17RunGuarded(c c17Case) (c17Result, *c17Hang) {
+	g := &c17Guard{}
+	cur := c17ChildEnv
+	out, hang := c17Guarded(g, func() c17Out { return c17RunCaseInner(c, cur, g) })
+	if hang == nil {
+		c17ChildEnv = out.env
+		return out.res, nil
+	}
+	// The case never returned: its environment is lost (closing the cache would block too); the next case of the
+	// batch gets a new one. The goroutines left behind only refer to the abandoned environment.
+	if hang.Env != nil {
+		hang.Env.abandon()
+	}
+	c17ChildEnv = nil
+	return c17Result{}, hang
+}
+
+// c17Isolate replays the requests the stuck cache had served since its last accepted mutation, each one as an
+// aftermath case of its own (cache loaded afresh from its files, the request, then the probes) on a new
+// repository. The first one after which the probes get stuck the same way names the finding; without one the
+// finding keeps the generic key.
+func c17Isolate(victim c17Case, h *c17Hang, res *c17Result) {
+	seen := map[string]bool{}
+	tried := 0
+	for _, sc := range h.Suspects {
+		ac := sc
+		ac.Kind, ac.Open, ac.Gen, ac.Seed = "after", "cold", "isolate", victim.Seed
+		switch sc.Kind {
+		case "mutation":
+		case "upload", "query":
+			ac.Mutation, ac.Sub = "", sc.Kind
+		default:
+			continue
+		}
+		sig := c17CaseSig(ac)
+		if seen[sig] {
+			continue
+		}
+		seen[sig] = true
+		tried++
+		_, hh := c17RunGuarded(ac)
+		if hh == nil {
+			continue
+		}
+		if hh.Deadlock != "" && hh.Culprit != "" {
+			iso := c17HangResult(ac, hh)
+			var keep []c17Finding
+			for _, f := range res.Findings {
+				if !strings.HasPrefix(f.Key, "hang:culprit-not-isolated") {
+					keep = append(keep, f)
+				}
+			}
+			res.Findings = keep
+			res.Replay = &ac
+			for _, f := range iso.Findings {
+				res.find(f.Key, fmt.Sprintf("%s\n(first seen as: the request of case %s never returned; isolated by replaying the %d requests served since the last accepted mutation one by one on a new repository)", f.What, c17CaseSig(victim), len(h.Suspects)))
+			}
+			res.count("hangs_attributed_by_replaying_the_requests_served_before", 1)
+			return
+		}
+		break
+	}
+	res.count("hangs_not_attributed", 1)
+	res.seen("hang_isolation", fmt.Sprintf("%d of %d earlier requests replayed, none reproduces it", tried, len(h.Suspects)))
+}
+
+func c17RunCaseInner(c c17Case, e *c17Env, g *c17Guard) c17Out {
 	res := c17Result{Sig: c17CaseSig(c)}
-	if c17ChildEnv == nil {
+	if e == nil {
+		g.Stage("building the served repository")
 		env, err := c17BuildEnv(c.Seed)
 		if err != nil {
 			res.Inconclusive = "cannot build the served repository: " + err.Error()
-			return res
+			return c17Out{res, nil}
 		}
-		c17ChildEnv = env
+		e = env
 	}
-	e := c17ChildEnv
-	start := e.h.Requests
+	e.g = g
+	g.SetEnv(e)
+	g.Publish(&res, e.suspects)
+	start := e.requests()
+	g.Stage("case %s", res.Sig)
 	switch c.Kind {
 	case "mutation":
 		e.runMutation(c, &res)
@@ -63,10 +150,54 @@ func c17RunCase(c c17Case) c17Result {
 		e.runQuery(c, &res)
 	case "direct":
 		e.runDirect(c, &res)
+	case "after":
+		e.runAfter(c, &res)
 	default:
 		res.Inconclusive = "unknown case kind " + c.Kind
 	}
-	res.Requests += int(e.h.Requests - start)
+	res.Requests += int(e.requests() - start)
+	return c17Out{res, e}
+}
+
+// c17HangResult turns the watchdog's report into the verdict of the case.
+func c17HangResult(c c17Case, h *c17Hang) c17Result {
+	res := h.Partial
+	res.Sig = c17CaseSig(c)
+	res.Nontrivial = true
+	where := h.Stage
+	if h.Inflight != "" {
+		where += " — request in flight: " + truncateStr(h.Inflight, 500)
+	}
+	passed := append([]string{}, h.Passed...)
+	if len(passed) > 6 {
+		passed = passed[len(passed)-6:]
+	}
+	for i := range passed {
+		passed[i] = truncateStr(passed[i], 90)
+	}
+	if h.Deadlock == "" {
+		res.Hang = "unclassified"
+		res.Inconclusive = fmt.Sprintf("nothing moved for %s while: %s; the goroutine dump does not show goroutines parked on a git-bug mutex with nothing able to run, so this is not counted as a stuck API. Dump: %s",
+			h.Idle.Round(time.Second), where, truncateStr(h.Excerpt, 1500))
+		return res
+	}
+	res.Hang = "deadlock"
+	res.count("hangs_classified_as_deadlock", 1)
+	tail := fmt.Sprintf("stuck while: %s. Goroutines are parked on a mutex inside %s and no goroutine of the process can run (two dumps, nothing moved for %s). Steps before: %s.\n%s",
+		where, h.Deadlock, h.Idle.Round(time.Second), strings.Join(passed, " / "), h.Excerpt)
+	if h.Culprit != "" {
+		res.find("hang-after-"+h.CulpritO+"-request:"+h.CulpritM,
+			fmt.Sprintf("after the %s request %s the API never answers again — %s", h.CulpritO, h.Culprit, tail))
+		return res
+	}
+	var sus []string
+	for _, sc := range h.Suspects {
+		sus = append(sus, c17CaseSig(sc))
+	}
+	if len(sus) == 0 {
+		sus = []string{"none"}
+	}
+	res.find("hang:culprit-not-isolated:"+c.Kind, fmt.Sprintf("the request of case %s never returns — %s\nrequests served by this cache since (and including) its last accepted mutation: %s", c17CaseSig(c), tail, strings.Join(sus, "; ")))
 	return res
 }
 
@@ -96,13 +227,16 @@ func (e *c17Env) runUpload(c c17Case, res *c17Result) {
 	case "empty":
 		content = nil
 	}
+	e.g.Inflight(fmt.Sprintf("[%s] POST /upload/%s (%s)", who(c.Auth), repo, c.Variant))
 	status, body, panicked := e.h.Upload(c.Auth, repo, field, content)
+	e.g.Inflight("")
 	after, err := e.snapshot()
 	if err != nil {
 		res.Inconclusive = err.Error()
 		return
 	}
 	e.snap = after
+	e.noteServed(c, false)
 	diff := c17Diff(before, after)
 	res.Nontrivial = true
 	res.Class = "upload"
@@ -157,25 +291,39 @@ func (e *c17Env) runUpload(c c17Case, res *c17Result) {
 }
 
 func (e *c17Env) runQuery(c c17Case, res *c17Result) {
+	rng := rand.New(rand.NewSource(c.Rnd))
+	arg := ""
+	switch c.Variant {
+	case "gitfile":
+		arg = e.blobs[rng.Intn(len(e.blobs))]
+	case "bug-detail":
+		ids := e.bugIds()
+		arg = ids[rng.Intn(len(ids))]
+	}
+	e.query(c.Auth, c.Variant, arg, res)
+}
+
+// query sends one read request (variant gitfile: arg = blob hash; bug-detail: arg = bug id; else the overview)
+// and judges it: it must be answered, agree with the git data, and change nothing.
+func (e *c17Env) query(auth bool, variant, arg string, res *c17Result) {
 	before := e.snap
 	res.Class = "query"
 	res.Nontrivial = true
-	rng := rand.New(rand.NewSource(c.Rnd))
-	ids := e.bugIds()
 	var what string
-	switch c.Variant {
+	switch variant {
 	case "gitfile":
-		h := e.blobs[rng.Intn(len(e.blobs))]
-		st, _, p := e.h.GitFile(c.Auth, gqlDefaultRepoName, h)
-		res.Request = "GET /gitfile/" + gqlDefaultRepoName + "/" + h
+		res.Request = "GET /gitfile/" + gqlDefaultRepoName + "/" + arg
+		e.g.Inflight(res.Request)
+		st, _, p := e.h.GitFile(auth, gqlDefaultRepoName, arg)
+		e.g.Inflight("")
 		if st != 200 || p != "" {
 			what = fmt.Sprintf("status %d panic %q", st, p)
 		}
 	case "bug-detail":
-		id := ids[rng.Intn(len(ids))]
+		id := arg
 		doc := fmt.Sprintf(`query { repository { bug(prefix: %q) { id title status author { id name } labels { name } comments { totalCount nodes { id message } } timeline { totalCount } operations { totalCount nodes { id } } actors { nodes { id } } } } }`, id)
 		res.Request = doc
-		resp := e.h.Post(c.Auth, doc, nil)
+		resp := e.post(auth, doc)
 		if resp.HasErrors() {
 			what = resp.ErrorText()
 		} else if got := jstrs(jlist(resp.Data, "repository", "bug", "operations", "nodes"), "id"); !sameStrings(got, before.GitOps[id]) {
@@ -184,7 +332,7 @@ func (e *c17Env) runQuery(c c17Case, res *c17Result) {
 	default:
 		doc := `query { repository { name allBugs { totalCount nodes { id title status } } allIdentities { totalCount nodes { id } } validLabels { nodes { name } } userIdentity { id } } }`
 		res.Request = doc
-		resp := e.h.Post(c.Auth, doc, nil)
+		resp := e.post(auth, doc)
 		if resp.HasErrors() {
 			what = resp.ErrorText()
 		} else {
@@ -193,25 +341,27 @@ func (e *c17Env) runQuery(c c17Case, res *c17Result) {
 				what = fmt.Sprintf("allBugs lists %d bugs, the cache %d", len(got), len(before.CacheBugIds))
 			}
 			uid := jstr(resp.Data, "repository", "userIdentity", "id")
-			if c.Auth && uid != e.user.Id().String() {
+			if auth && uid != e.user.Id().String() {
 				what = fmt.Sprintf("userIdentity is %q with user %s attached", uid, e.user.Id())
 			}
-			if !c.Auth && jget(resp.Data, "repository", "userIdentity") != nil {
+			if !auth && jget(resp.Data, "repository", "userIdentity") != nil {
 				what = "userIdentity is set although no user is attached"
 			}
 		}
 	}
+	e.g.Stage("snapshot after the %s query", variant)
 	after, err := e.snapshot()
 	if err != nil {
 		res.Inconclusive = err.Error()
 		return
 	}
 	e.snap = after
+	e.noteServed(c17Case{Kind: "query", Auth: auth, Variant: variant, Rnd: int64(len(arg))}, false)
 	if what != "" {
-		res.find("query-failed:"+who(c.Auth)+":"+c.Variant, "a read query must keep working: "+what+" — "+res.Request)
+		res.find("query-failed:"+who(auth)+":"+variant, "a read query must keep working: "+what+" — "+res.Request)
 	}
 	if diff := c17Diff(before, after); len(diff) > 0 {
-		res.find("query-changed:"+c.Variant, fmt.Sprintf("a read query changed the repository: %v — %s", diff, res.Request))
+		res.find("query-changed:"+variant, fmt.Sprintf("a read query changed the repository: %v — %s", diff, res.Request))
 	}
 	res.Outcome = "read"
 }
@@ -444,6 +594,7 @@ func runC17(tier, replay string) int {
 	}
 	batch := r.Pick(40, 420)
 	outcomes := runBatches[c17Case, c17Result]("", "c17", cases, batch, 15*time.Second, nil)
+	notJudged := 0
 	for i, oc := range outcomes {
 		c := cases[i]
 		if oc.Crashed {
@@ -451,8 +602,16 @@ func runC17(tier, replay string) int {
 			r.Violation("crash:"+oc.Site, "the handler process died while serving "+c17CaseSig(c)+":\n"+oc.Excerpt, c)
 			continue
 		}
+		if oc.TimedOut && oc.Deadlock != "" {
+			// the child's own watchdog did not get to report, the parent's did: the dump decides here too
+			r.Case("deadlock", false)
+			r.Violation("hang:"+c.Kind+":"+c.Mutation+c.Variant+":"+who(c.Auth), "the request of "+c17CaseSig(c)+" never returns ("+oc.Deadlock+"); goroutine dump:\n"+oc.Excerpt, c)
+			continue
+		}
 		if oc.TimedOut || oc.Result == nil {
 			r.Case("timeout", false)
+			notJudged++
+			r.Count("cases_not_judged/timeout", 1)
 			r.Inconclusive("case " + c17CaseSig(c) + " did not finish: " + oc.Site)
 			continue
 		}
@@ -461,8 +620,21 @@ func runC17(tier, replay string) int {
 			b, _ := json.MarshalIndent(res, "", " ")
 			fmt.Println(string(b))
 		}
+		// what was established before a case became inconclusive (or got stuck) still counts
+		for _, f := range res.Findings {
+			if res.Replay != nil && strings.HasPrefix(f.Key, "hang-after-") {
+				r.Violation(f.Key, f.What, *res.Replay)
+				continue
+			}
+			r.Violation(f.Key, f.What, c)
+		}
+		if res.Hang != "" {
+			r.Count("cases_that_never_returned/"+res.Hang, 1)
+		}
 		if res.Inconclusive != "" {
 			r.Case(res.Sig, false)
+			notJudged++
+			r.Count("cases_not_judged/"+map[bool]string{true: "no-progress-without-deadlock-evidence", false: "other"}[res.Hang != ""], 1)
 			r.Inconclusive(res.Sig + ": " + res.Inconclusive)
 			continue
 		}
@@ -476,9 +648,6 @@ func runC17(tier, replay string) int {
 			for _, m := range ms {
 				r.Seen(set, m)
 			}
-		}
-		for _, f := range res.Findings {
-			r.Violation(f.Key, f.What, c)
 		}
 		if i < 3 {
 			r.Sample(map[string]any{"case": c, "class": res.Class, "outcome": res.Outcome, "request": truncateStr(res.Request, 400), "response": truncateStr(res.Response, 300)})
@@ -494,10 +663,24 @@ func runC17(tier, replay string) int {
 	}
 	sort.Strings(gens)
 	r.Extra("cases_by_generator", genCount)
-	return r.Finish("every mutation field found by __schema introspection x argument classes by input type (bug prefix full/short/unknown/ambiguous/empty, Hash lists valid/empty/malformed/unknown/mixed, text clean/unicode/long/multiline/empty/blank/control/CRLF/padded, label lists, missing/null required fields, null/omitted input, GET transport) x {no user, user}, plus upload endpoint, read queries and resolver-level calls with file lists; non-trivial = the request was served and judged by the before/after snapshot oracle; distinct = distinct (mutation, auth, argument class vector)",
+	r.Extra("watchdog", fmt.Sprintf("in-child: no progress for %s => goroutine dump; stuck = goroutines parked on a mutex inside git-bug and nothing able to run, in two dumps; otherwise wait on, after %s inconclusive", c17FirstLook, c17GiveUp))
+	// A case that could not be judged is neither held nor violated. A few are tolerated (and listed in the
+	// evidence); many mean that the run has not observed what it claims to have observed.
+	limit := 2 + len(cases)/200
+	code := r.Finish("every mutation field found by __schema introspection x argument classes by input type (bug prefix full/short/unknown/ambiguous/empty/1-2 characters/over-long/huge/non-hex/blank, combined comment id likewise, Hash lists valid/empty/malformed/unknown/mixed, text clean/unicode/long/multiline/empty/blank/control/CRLF/padded, label lists, missing/null required fields, null/omitted input, GET transport) x {no user, user}, plus upload endpoint, read queries and resolver-level calls with file lists; aftermath cases: a refused or invalid request (every degenerate prefix/id class of every mutation, refused uploads) on a repository of >= 12 bugs (7 sharing the first id character, 2 sharing three), the cache either loaded from its on-disk files (no bug in memory) or warm, followed by probes: anonymous query reading a bug that is not in memory, accepted mutation with user on the shared handler, overview, detail query with user; non-trivial = the request was served and judged by the before/after snapshot oracle; distinct = distinct (kind, mutation, auth, argument class vector)",
 		map[bool]int{true: 1, false: r.Pick(100, 1000)}[replay != ""], []string{
 			"the handler stack is assembled like commands/webui.go (mux router, auth.Middleware iff a user is attached, /graphql, /gitfile, /upload)",
 			"a request is 'valid' only when every argument is in a class the statement clearly allows (existing unambiguous bug, clean text, stored file hashes, effective label change); anything doubtful is only checked for 'error => no change' and 'success => exactly the modelled operations by the user'",
 			"the set of object files under .git/objects stands for 'reachable objects' (a refused request has no reason to write any object)",
+			"'queries keep working' / 'each mutation records the change' include: the request is answered at all. A request that never returns counts as a violation only when the goroutine dump shows goroutines parked on a mutex inside git-bug with nothing able to run (twice); elapsed time alone makes the case inconclusive",
 		})
+	if code == 0 && notJudged > limit && replay == "" {
+		fmt.Printf("INCONCLUSIVE property=C17 %d of %d cases could not be judged (at most %d tolerated); see inconclusive_reasons in the evidence\n", notJudged, len(cases), limit)
+		return 1
+	}
+	if code == 0 && replay != "" && notJudged > 0 {
+		fmt.Printf("INCONCLUSIVE property=C17 the replayed case could not be judged\n")
+		return 1
+	}
+	return code
 }
